@@ -157,7 +157,7 @@ func C20(c *Ctx) {
 	r.Rule("C20-h", "the hand-written bootstrap parser realises the binding strength of the grammars (C03-b): the method that builds choice nodes takes its operands from the one that builds action nodes, that one from sequence, label, prefix (& !), suffix (? * +) and primary in this order, and the primary level re-enters the choice level; levels are recognised by the ast constructors a method calls")
 	r.Rule("C20-i", "comments and the subset of the hand-written front-end: either no function of the hand-written parser names a comment token (a comment outside a code block is then rejected, i.e. outside the subset), or the hand-written scanner delimits comments as grammar/pigeon.peg does - the flag that arms the closing test of a multi-line comment is cleared by every rune other than '*', so the comment ends at the first */ and nowhere else")
 	bootstrapComments(c, "C20-i")
-	r.Rule("C20-j", "each stage's input grammar lies in the subset the front-end of the stage before understands (pigeon.peg does not use its own extensions of bootstrap.peg): (1) every node type in the grammar literal of pigeon.go / bootstrap_pigeon.go is constructed (ast.New…) by the actions of bootstrap_pigeon.go / by bootstrap/parser.go; (2) every code block of the two grammars ends at the same byte for a reader that counts braces (bootstrap.peg's Code rule, the hand-written scanCode) and for pigeon.peg's Code rule, which skips strings, rune literals and comments; (3) every rule of pigeon.peg is defined with an operator bootstrap.peg's RuleDefOp lists; (4) rule names, references and labels of pigeon.peg are ASCII identifiers as bootstrap.peg's IdentifierStart / IdentifierPart demand")
+	r.Rule("C20-j", "each stage's input grammar lies in the subset the front-end of the stage before understands (pigeon.peg does not use its own extensions of bootstrap.peg): (1) every node type in the grammar literal of pigeon.go / bootstrap_pigeon.go is constructed (ast.New…) by the actions of bootstrap_pigeon.go / by bootstrap/parser.go; (2) every code block of the two grammars ends at the same byte for a reader that counts braces (bootstrap.peg's Code rule, the hand-written scanCode) and for pigeon.peg's Code rule, which skips strings, rune literals and comments; (3) every rule of pigeon.peg is defined with an operator bootstrap.peg's RuleDefOp lists; (4) rule names, references and labels of pigeon.peg are ASCII identifiers as bootstrap.peg's IdentifierStart / IdentifierPart demand; (5) where the two grammars define SingleLineComment differently (pigeon.peg excludes `//{`), neither grammar text has `//{` outside literals, classes and code blocks, so every `//` there is a comment for all three front-ends")
 	bootstrapSubset(c, "C20-j")
 	r.Rule("C20-k", "the ignore-case suffix is lexed alike by the three front-ends: the `ignore:` item of LitMatcher and CharClassMatcher in both grammars and the `if s.cur == 'i'` of the hand-written scanner's literal and class routines are all unconditional (an optional bare `i`) or all conditional - otherwise the front-ends split `\"a\"item` differently")
 	ignoreCaseSuffixAgreement(c, "C20-k")
